@@ -241,10 +241,45 @@ func (vc *VC) finish() {
 	if vc.con == nil {
 		return
 	}
+	// "free" results: every result leaf an unconstrained constant. The same clause over them is
+	// what the replay pins to the REAL outputs, so that the solver (not model agreement) decides
+	// whether what the real function returned falsifies the clause. Only for functions whose
+	// results are scalars / errors and that leave memory unchanged.
+	scalarResults := nres > 0
+	for _, r := range merged {
+		if r.K != KInt && r.K != KBool && r.K != KRef {
+			scalarResults = false
+		}
+	}
+	var freeEnv *Env
+	if scalarResults && len(mem.m) == 0 && len(mem.wild) == 0 && len(mem.lazyMems) == 0 {
+		freeEnv = &Env{vc: vc, vars: map[string]SVal{}, mem: vc.mem0, old: old}
+		for k, v := range old.vars {
+			freeEnv.vars[k] = v
+		}
+		var fr []SVal
+		for i, r := range merged {
+			n := vc.declare(fmt.Sprintf("$free_res_%d", i), map[Kind]Sort{KInt: SInt, KBool: SBool, KRef: SInt}[r.K])
+			x := r
+			x.S = n
+			fr = append(fr, x)
+		}
+		vc.freeResults = fr
+		var fres SVal
+		if nres == 1 {
+			fres = fr[0]
+		} else {
+			fres = SVal{K: KTuple, T: sig.Results(), F: fr}
+		}
+		bindResults(freeEnv, sig, fres)
+	}
 	for _, c := range vc.con.Ensures {
 		o := vc.oblige("ensures", Rexit, vc.evalBool(c.E, env), vc.fn.Pos(), c.Text)
 		o.Name = fmt.Sprintf("%s#ensures.%d", vc.fname(), c.Ord)
 		o.Tags = c.Tags
+		if freeEnv != nil {
+			o.GoalFree = vc.evalBool(c.E, freeEnv)
+		}
 	}
 	for _, c := range vc.con.Canaries {
 		o := vc.oblige("canary", Rexit, vc.evalBool(c.E, env), vc.fn.Pos(), c.Text)
